@@ -3,12 +3,12 @@
 (* Argument conventions of executor.submit / map / starmap, written from   *)
 (* the Python documentation of the built-ins they are documented to        *)
 (* mirror (pure operators, no variables):                                  *)
-(*   submit(fn, *args, **kw)        = fn(*args, **kw)                       *)
-(*   map(fn, it_1 .. it_r, **kw)    = [fn(it_1[j], .., it_r[j], **kw)       *)
+(*   submit(fn, args.., kw..)       = fn(args.., kw..)                      *)
+(*   map(fn, it_1 .. it_r, kw..)    = [fn(it_1[j], .., it_r[j], kw..)       *)
 (*                                     for j < min(len(it_q))]              *)
 (*      ("stops when the shortest iterable is exhausted"; kwargs are        *)
 (*       broadcast to every call, as the executor API documents)            *)
-(*   starmap(fn, tuples, **kw)      = [fn(*t, **kw) for t in tuples]        *)
+(*   starmap(fn, tuples, kw..)      = [fn(t[1], .., t[m], kw..) for t in tuples] *)
 (* results are returned as a list.                                          *)
 (*                                                                         *)
 (* A call is a record [api, fn, its, haskw, k]:                             *)
@@ -29,7 +29,7 @@ TakesK(fn) == fn \in {"subk", "sqk"}
 RECURSIVE WSum(_, _)
 WSum(a, p) == IF a = <<>> THEN 0 ELSE p * Head(a) + WSum(Tail(a), 10 * p)
 
-\* fn(*a, k=k): k = 0 is the default of the keyword parameter
+\* fn applied to the positional tuple a and keyword k: k = 0 is the default of the keyword parameter
 Fn(fn, a, k) ==
   CASE fn = "sq" -> a[1] * a[1]
     [] fn = "ident" -> a[1]
